@@ -58,17 +58,40 @@ def splitIdxOriginal (P : Nat → Pt) (axis : Nat) (pv : Rat) (idx : List Nat) :
 
 def leAx (P : Nat → Pt) (axis : Nat) (i j : Nat) : Bool := decide (coord (P i) axis ≤ coord (P j) axis)
 
-/-- repaired split: when the pivot does not separate the points, split at the median RANK along the axis
-(stable sort; lower half left, upper half right; split value = largest coordinate of the lower half) -/
+/-! numpy vocabulary of `_split_points`, on lists (positions = list positions) -/
+
+/-- `self.points[pt_idx, axis]` -/
+def takeAx (P : Nat → Pt) (idx : List Nat) (axis : Nat) : List Rat := idx.map (fun i => coord (P i) axis)
+/-- `pts_ax <= pivot` (boolean mask) -/
+def leMask (xs : List Rat) (pv : Rat) : List Bool := xs.map (fun x => decide (x ≤ pv))
+/-- `mask.all()` / `mask.any()` -/
+def maskAll (m : List Bool) : Bool := m.all id
+def maskAny (m : List Bool) : Bool := m.any id
+/-- `~mask` -/
+def maskNot (m : List Bool) : List Bool := m.map not
+/-- `np.argsort(xs, kind="stable")`: the positions, stably sorted by value (`List.mergeSort` is stable) -/
+def argsortStable (xs : List Rat) : List Nat :=
+  (List.range xs.length).mergeSort (fun a b => decide (xs.getD a 0 ≤ xs.getD b 0))
+/-- `np.zeros(n, dtype=bool)` -/
+def zerosBool (n : Nat) : List Bool := List.replicate n false
+/-- `mask[pos] = True` (fancy-index store) -/
+def maskSet (mask : List Bool) (pos : List Nat) : List Bool := pos.foldl (fun m p => m.set p true) mask
+/-- `np.extract(mask, xs)`: the entries of `xs` at the positions where the mask holds, in the order of `xs` -/
+def extract (mask : List Bool) (xs : List Nat) : List Nat := ((xs.zip mask).filter (fun p => p.2)).map (fun p => p.1)
+
+/-- repaired split, as coded: `pts_ax <= pivot` mask; when the pivot does not separate the points, the mask of the
+`size//2` positions of smallest coordinate (stable argsort) and split value = the largest coordinate among them.
+Both halves keep the ORDER of `idx` (`np.extract`). -/
 def splitIdx (P : Nat → Pt) (axis : Nat) (pv : Rat) (idx : List Nat) : Rat × List Nat × List Nat :=
-  let less := idx.filter (fun i => decide (coord (P i) axis ≤ pv))
-  let more := idx.filter (fun i => !decide (coord (P i) axis ≤ pv))
-  if more.isEmpty || less.isEmpty then
-    let s := idx.mergeSort (leAx P axis)
-    let h := s.length / 2
-    -- `pts_ax[order[half-1]]` = coordinate of the last index of the lower half (h ≥ 1 whenever a cell is split)
-    ((match (s.take h).getLast? with | some w => coord (P w) axis | none => pv), s.take h, s.drop h)
-  else (pv, less, more)
+  let xs := takeAx P idx axis
+  let m := leMask xs pv
+  if maskAll m || !(maskAny m) then
+    let order := argsortStable xs
+    let h := xs.length / 2
+    let m' := maskSet (zerosBool xs.length) (order.take h)
+    -- `pts_ax[order[half-1]]` (h ≥ 1 whenever a cell is split)
+    (xs.getD (order.getD (h - 1) 0) 0, extract m' idx, extract (maskNot m') idx)
+  else (pv, extract m idx, extract (maskNot m) idx)
 
 def boxLess (b : Box) (axis : Nat) (sv : Rat) : Box := ⟨b.lo, b.hi.set axis (fin sv)⟩
 def boxMore (b : Box) (axis : Nat) (sv : Rat) : Box := ⟨b.lo.set axis (fin sv), b.hi⟩
